@@ -13,6 +13,7 @@ import (
 	"net/http"
 	"net/http/httptest"
 	"os"
+	"reflect"
 	"sort"
 	"strconv"
 	"strings"
@@ -407,8 +408,14 @@ func runChf(line string, t []string) string {
 		cleanupCdrFiles()
 		self := chf_context.GetSelf()
 		self.UePool.Range(func(k, v interface{}) bool { self.UePool.Delete(k); return true })
-		self.LocalRecordSequenceNumber = 0
-		self.ChargingSessionSequence = 0
+		// zero the sequence counters by name (reflection: the harness must keep building when a
+		// change to the tree renames or removes one of them)
+		rv := reflect.ValueOf(self).Elem()
+		for _, name := range []string{"LocalRecordSequenceNumber", "ChargingSessionSequence"} {
+			if f := rv.FieldByName(name); f.IsValid() && f.CanSet() && f.Kind() == reflect.Uint64 {
+				f.SetUint(0)
+			}
+		}
 		self.RecordSequenceNumber = map[string]int64{}
 		store.reset()
 		chfSupis = map[string]bool{}
@@ -492,6 +499,20 @@ func genChf(o genOpts, w *bufio.Writer) {
 	// the generator mirrors the session id rule (supi+nf+counter) only to address requests; the real
 	// references come from the Location header and are compared by the check.
 	counter := 0
+	if o.mode == "names" {
+		// adversarial block: one SUPI, many creates whose consumer names end in digits or are empty, so that
+		// any digit-ambiguous construction of the reference (name ++ counter) must collide:
+		// ("1",0) vs ("",10), ("1",1) vs ("",11), ("2",0)…
+		fmt.Fprintf(w, "chf reset\n")
+		names := []string{"1", "1", "2", "a1", "a", "", "1-", "0", "9", "10", "", "", "a", "1", "", "", "", "", "", "", "", ""}
+		for k, nf := range names {
+			fmt.Fprintf(w, "chf create %s\n", fmtReq("imsi-1", nf, 100+k, 0, 1, 0, nil, nil))
+		}
+		fmt.Fprintf(w, "chf reset\n")
+		for k, nf := range []string{"23", "3", "", "2"} {
+			fmt.Fprintf(w, "chf create %s\n", fmtReq([]string{"imsi-1", "imsi-12", "imsi-123", "imsi-1"}[k], nf, 100+k, 0, 1, 0, nil, nil))
+		}
+	}
 	for done := 0; done < o.n; {
 		fmt.Fprintf(w, "chf reset\n")
 		counter = 0
@@ -502,14 +523,33 @@ func genChf(o genOpts, w *bufio.Writer) {
 		costs := []int{1, 2, 3, 7, 1000}
 		for s := 0; s < nsub; s++ {
 			supi := fmt.Sprintf("imsi-20893%04d%06d", o.seed%10000, r.intn(1000000))
+			if o.mode == "names" {
+				// one SUPI a prefix of another, digit tails
+				supi = r.pickStr("imsi-1", "imsi-12", "imsi-123", "imsi-", "imsi-1-", "imsi-10")
+				dup := false
+				for _, x := range sess {
+					if x.supi == supi {
+						dup = true
+					}
+				}
+				if dup {
+					continue
+				}
+			}
 			cost := costs[r.intn(len(costs))]
 			for _, rg := range rgs {
 				bal := r.pick(0, 1, 50, 150, 199, 200, 201, 999, 1000, 5000, 100000) * r.pick(1, 1, cost)
 				fmt.Fprintf(w, "chf acct %s %d %s %s\n", hexOf([]byte(supi)), rg, hexOf([]byte(strconv.Itoa(bal))), hexOf([]byte(strconv.Itoa(cost))))
 			}
 			ns := 1 + r.intn(2)
+			if o.mode == "names" {
+				ns = 2 + r.intn(3)
+			}
 			for k := 0; k < ns; k++ {
 				nf := r.pickStr("smf1", "smf", "a1", "a", "")
+				if o.mode == "names" {
+					nf = r.pickStr("a1", "a", "", "1", "10", "-1", "a-1", "-", "smf-0", "0")
+				}
 				fmt.Fprintf(w, "chf create %s\n", fmtReq(supi, nf, 100+k, 0, 1, 0, nil, nil))
 				sess = append(sess, &genSess{supi: supi, nf: nf, sid: supi + nf + "-" + strconv.Itoa(counter), lastGrant: map[int]int{}, live: true})
 				counter++
@@ -568,8 +608,39 @@ func genChf(o genOpts, w *bufio.Writer) {
 				op = "release"
 				s.live = false
 			}
-			fmt.Fprintf(w, "chf %s %s %s\n", op, hexOf([]byte(s.sid)), fmtReq(s.supi, s.nf, 100, i+1, 1, 0, trigs, usages))
+			sid, supiReq := s.sid, s.supi
+			if o.mode == "api" && r.chance(25) {
+				// unknown / stale / foreign references, unknown subscribers: must be rejected without effect
+				switch r.intn(5) {
+				case 0:
+					sid = "nosuch"
+				case 1:
+					sid = s.sid + "0"
+				case 2:
+					other := sess[r.intn(len(sess))]
+					if other.supi != s.supi {
+						sid = other.sid
+					} else {
+						sid = ""
+					}
+				case 3:
+					supiReq = "imsi-999999999999999"
+				default:
+					for _, x := range sess {
+						if !x.live && x.supi == s.supi {
+							sid = x.sid
+						}
+					}
+				}
+				if op == "release" {
+					s.live = true
+				}
+			}
+			fmt.Fprintf(w, "chf %s %s %s\n", op, hexOf([]byte(sid)), fmtReq(supiReq, s.nf, 100, i+1, 1, 0, trigs, usages))
 			done++
+			if o.mode == "api" && r.chance(10) {
+				fmt.Fprintf(w, "chf recharge %s\n", hexOf([]byte(r.pickStr(s.supi+"_1", s.supi+"_2", s.supi, s.supi+"_x", "imsi-404_1", s.supi+"_1_2", "_", s.supi+"_-3", s.supi+"_99999999999"))))
+			}
 			if r.chance(6) {
 				fmt.Fprintf(w, "chf credit %s %d %d\n", hexOf([]byte(s.supi)), rgs[r.intn(2)], r.pick(100, 1000, 5000))
 				fmt.Fprintf(w, "chf recharge %s\n", hexOf([]byte(s.supi+"_"+strconv.Itoa(rgs[r.intn(2)]))))
